@@ -90,13 +90,16 @@ def gen_spec(seed, tier):
     start = 0
     # output strides are a property of the run, the same in every restart
     strides = {rl: 2 ** (nlev - 1 - rl) * int(rng.choice([1, 2, 4])) for rl in range(nlev)}
+    # realistic iteration numbers: outputs every 1, 10, 100, 128 ... steps
+    itscale = int(rng.choice([1, 1, 10, 100, 128, 1024]))
     for r in range(nres):
         its = {}
         length = int(rng.integers(1, 5))
         for rl in range(nlev):
             stride = strides[rl]
             base_stride = 2 ** (nlev - 1) * 4
-            its[rl] = list(range(start, start + length * base_stride + 1, stride))
+            its[rl] = [itscale * i for i in
+                       range(start, start + length * base_stride + 1, stride)]
         rs = dict(its=its, rtag=r + 1)
         if rng.random() < 0.5:
             # checkpoints with real data (two time levels) at output iterations
@@ -299,8 +302,12 @@ def classify(got, exp, spec, var, it, rl):
         off = d.flat[0]
         if abs(off) < 16 and off == int(off):
             return "data of another restart"
+        if abs(off) < 64 and off == int(off):
+            return "data of another level"
+        if off % 64 == 0 and abs(off) < 64 * 2097152:
+            return "data of another iteration"
         if off % 64 == 0:
-            return "data of another iteration or variable"
+            return "data of another variable"
         return "constant offset"
     if np.any(got == etgen.SENTINEL):
         return "ghost cells included"
